@@ -142,6 +142,14 @@ def uses_fixture_only_features(c: Case) -> bool:
     return False
 
 
+def has_config_files(c: Case) -> bool:
+    """Cases that bring their own mypy.ini / pyproject.toml / setup.cfg / plugins: the config is auto-discovered from the
+    working directory and usually points at test-only plugins - not a plain program input."""
+    names = list(c.files) + [p for s in c.steps.values() for p in s]
+    return any(os.path.basename(p) in ("mypy.ini", "pyproject.toml", "setup.cfg", ".mypy.ini", "tox.ini") or p.endswith((".ini", ".toml", ".cfg"))
+               for p in names) or any("plugin" in f for f in c.flags)
+
+
 _TYPE_COMMENT = re.compile(r"#\s*type:\s*(?!ignore\b)")
 
 
